@@ -376,6 +376,10 @@ func (doc *T) derefHeaders(hs Headers, refNameResolver RefNameResolver, parentIs
 	for _, name := range componentNames(hs) {
 		h := hs[name]
 		isExternal := doc.addHeaderToSpec(h, refNameResolver, parentIsExternal)
+		if h == nil || h.Value == nil {
+			// a null entry, or a reference that loading left unresolved
+			continue
+		}
 		if doc.isVisitedHeader(h.Value) {
 			continue
 		}
@@ -400,6 +404,9 @@ func (doc *T) derefContent(c Content, refNameResolver RefNameResolver, parentIsE
 		doc.derefExamples(mediatype.Examples, refNameResolver, parentIsExternal)
 		for _, name := range componentNames(mediatype.Encoding) {
 			e := mediatype.Encoding[name]
+			if e == nil {
+				continue
+			}
 			doc.derefHeaders(e.Headers, refNameResolver, parentIsExternal)
 		}
 	}
